@@ -15,6 +15,7 @@ RULE = (
     "the execution ENTERs or is inside its function. Under gates an overlap cannot be missed: a wrongly dispatched "
     "node is still inside its function. non-trivial = at some scheduler wait a sequential node was ready while "
     "another node was in flight, or a node was ready while a sequential node was in flight."
+    " Round 8-10 additions: pool-spawn fault; executor created before is_sequential is reconfigured; activation flags (truthy values that are not True); unusable configuration entries; environment axes as in C04."
 )
 ASSUMPTIONS = ["entry/exit of every node function is recorded under one lock with a global sequence number"]
 BUDGET = {"quick": {"shards": 8, "seconds": 40}, "thorough": {"shards": 16, "seconds": 420}}
